@@ -208,7 +208,8 @@ def mm_preseal():
                 ensures=[C("det", "res == spec_preseal(state)", det=True),
                          C("frame", "pool_phase_frame(state, res) && res.fee_pool == state.fee_pool", "C15", "C17", "C05"),
                          C("inv", "state_inv(res)", "C20"),
-                         C("builtins", "spec_builtin_pools(res) && builtins_live(res) && pools_ok(res.pools@)", "C16")])
+                         C("builtins", "spec_builtin_pools(res) && builtins_live(res) && pools_ok(res.pools@)", "C16"),
+                         C("ids", "ids_new(state.coins@.coins, res.coins@.coins)", "C20", "C02", note="settlement introduces no coin id other than ids of transaction outputs")])
 def st_tip909():
     return dict(requires=[C("pools", "old(self).pools@.contains_key(pk_mel_sym()) && old(self).pools@.contains_key(pk_erg_sym()) && pool_live(old(self).pools@[pk_mel_sym()]) && pool_live(old(self).pools@[pk_erg_sym()])"),
                           C("height", "old(self).height.0 < 950000 + 128 * 1_000_000", note="C09 envelope: `(1 << 20) >> divider` overflows the shift once divider reaches 128, i.e. from height 128 950 000 on (about 120 years of 30-second blocks); not reproduced on the real code (sealing at such a height is impractical to run)"),
@@ -221,14 +222,15 @@ def st_tip909():
 def smt_val_iter():
     return dict(ensures=[C("all", "res@.len() == self@.dom().len()", "C16")])
 def st_seal_full():
-    return dict(requires=[C("inv", "state_inv(self) && pools_ok(self.pools@) && builtins_if_present(self)"), C("env", "seal_env(self)"), C("env909", "spec_tip(self.network, self.height, 950000) ==> tip909_env(spec_preseal(self))", note="C09 envelopes of apply_tip_909 (see its contract), on the state after settlement"),
+    return dict(requires=[C("inv", "state_inv(self) && pools_ok(self.pools@) && builtins_if_present(self)"), C("env", "seal_env(self) && reward_fresh(self)"), C("env909", "spec_tip(self.network, self.height, 950000) ==> tip909_env(spec_preseal(self))", note="C09 envelopes of apply_tip_909 (see its contract), on the state after settlement"),
                           C("fits", "self.tips.0 <= u128::MAX - 0x1_0000_0000_0000_0000_0000_0000_0000u128", note="C09 envelope: pending tips below 2^128 - 2^112")],
                 ensures=[C("det", "res.0 == spec_seal(self, action)", det=True),
                          C("rel", "seal_rel(self, action, res.0) && res.1 == action", "C06", "C05", "C17"),
                          C("action_tips", "sealed_ok(SealedState(res.0, action))", "C08", "C05"),
                          C("noaction", "action is None ==> res.0.fee_multiplier == self.fee_multiplier && res.0.tips == self.tips", "C17", "C05"),
                          C("frame", "res.0.network == self.network && res.0.height == self.height && res.0.history == self.history && res.0.transactions == self.transactions && res.0.stakes == self.stakes && res.0.dosc_speed == self.dosc_speed", "C07", "C06"),
-                         C("inv", "res.0.coins.wf() && spec_builtin_pools(res.0)", "C16", "C20")])
+                         C("inv", "res.0.coins.wf() && spec_builtin_pools(res.0)", "C16", "C20"),
+                         C("sinv", "state_inv(res.0) && pools_ok(res.0.pools@) && builtins_live(res.0)", "C16", "C20", note="sealing preserves the state invariants")])
 
 def st_next_unsealed():
     return dict(requires=[C("chain", "chain_ok(self.0) && self.0.height.0 < u64::MAX"), C("wf", "state_inv(self.0)"),
@@ -374,7 +376,8 @@ def mm_process_withdrawals():
     d["ensures"] = d["ensures"] + [
         C("exact", """exists|reqs: Seq<Transaction>, wl: spec_fn(PoolKey) -> int, wr: spec_fn(PoolKey) -> int| #[trigger] selected(state.transactions@, reqs, withdraw_pred(state)) && wd_reqs_ok(state.pools@, state.coins@.coins, reqs)
                && #[trigger] wds_done(state.pools@, state.coins@.coins, state.height, reqs, mentioned_set(reqs), wl, wr, res.pools@, res.coins@.coins)""", "C15", "C01", "C16",
-          note="every pool named by a genuine withdrawal request is settled exactly once: exactly the redeemed liquidity is retired, payouts leave the reserves and are split pro rata")]
+          note="every pool named by a genuine withdrawal request is settled exactly once: exactly the redeemed liquidity is retired, payouts leave the reserves and are split pro rata"),
+        C("ids", "ids_new(state.coins@.coins, res.coins@.coins)", "C20", "C02", note="withdrawal settlement introduces no coin id other than (hash of a request, 1)")]
     return d
 
 def mm_dosc_inflator():
